@@ -644,6 +644,10 @@ bool Instance::configure_tx_txin() {
         sigver = SigVersion::BASE;
         script = scriptSig;
         successor_script = scriptPubKey;
+        if (!script.HasValidOps()) {
+            fprintf(stderr, "invalid script (sig script)\n");
+            return false;
+        }
     }
 
     // // extract pubkeys from script
